@@ -165,6 +165,16 @@ func ConvBool(val any) (b bool, ok bool) {
 	return
 }
 
+// Integer given as text. Empty text is zero; text that is not an integer, or is out of range, is not a number
+// (the value ParseInt returns next to its error - 0 or the nearest limit - must not be taken for one).
+func text2int(s string) (int64, bool) {
+	if len(s) == 0 {
+		return 0, true
+	}
+	r, err := strconv.ParseInt(s, 0, 0)
+	return r, err == nil
+}
+
 // Convert interface value with arbitrary underlying type to integer value.
 func if2int(raw any) (r int64, ok bool) {
 	ok = true
@@ -210,25 +220,15 @@ func if2int(raw any) (r int64, ok bool) {
 	case *uint64:
 		r = int64(*raw.(*uint64))
 	case []byte:
-		if len(raw.([]byte)) > 0 {
-			r, _ = strconv.ParseInt(byteconv.B2S(raw.([]byte)), 0, 0)
-		}
+		return text2int(byteconv.B2S(raw.([]byte)))
 	case *[]byte:
-		if len(*raw.(*[]byte)) > 0 {
-			r, _ = strconv.ParseInt(byteconv.B2S(*raw.(*[]byte)), 0, 0)
-		}
+		return text2int(byteconv.B2S(*raw.(*[]byte)))
 	case string:
-		if len(raw.(string)) > 0 {
-			r, _ = strconv.ParseInt(raw.(string), 0, 0)
-		}
+		return text2int(raw.(string))
 	case *string:
-		if len(*raw.(*string)) > 0 {
-			r, _ = strconv.ParseInt(*raw.(*string), 0, 0)
-		}
+		return text2int(*raw.(*string))
 	case *bytebuf.Chain:
-		if (*raw.(*bytebuf.Chain)).Len() > 0 {
-			r, _ = strconv.ParseInt((*raw.(*bytebuf.Chain)).String(), 0, 0)
-		}
+		return text2int((*raw.(*bytebuf.Chain)).String())
 	case intConverter:
 		if i, err := raw.(intConverter).Int(); err == nil {
 			return i, true
